@@ -109,8 +109,12 @@ def gen_call(rng, idx):
     elif kind == 'placed':
         nb = rng.randint(0, 8)
         v = sorted(set(C.dyadic(rng, xmin - rg / 4, xmax + rg / 4, 6) for _ in range(nb)))
-        if rng.random() < 0.3:
+        if rng.random() < 0.3 and xmin + (xmax - xmin) == xmax:
+            # (the code filters with `placed <= startx + rangex`; when that float sum is not x.max() exactly a
+            #  placed point AT x.max() is dropped and re-created by the cover fix-up: same range, other knots)
             v = sorted(set(v + [xmin, xmax]))
+        # keep placed points off the rounding boundary startx + rangex
+        v = [t for t in v if t == xmax or abs(t - (xmin + (xmax - xmin))) > 1e-9 * (1 + abs(xmax))]
         value = v
     elif kind == 'bkspace':
         value = rg / rng.choice([1, 2, 3, 4, 5, 7]) * rng.choice([1.0, 1.0, 0.75, 1.5, 4.0])
